@@ -23,6 +23,8 @@ def special_payloads(bundle, rnd):
         pl, _ = gen_messages.build(ident, bundle, rnd, values="random", count="max", mask="dense")
         if pl:
             out.append(pl)
+    # payloads that are themselves complete, checksum-consistent frames (a frame inside a frame)
+    out += [pl for pl in framelike_payloads(rnd) if len(pl) >= 8]
     return out
 
 
